@@ -224,7 +224,11 @@ def _symbolize(S, module, prefix):
     """all parameters AND float buffers (constraint bounds, prior parameters, flags) become symbolic atoms with unique witnesses"""
     for name, p in module.named_parameters():
         with torch.no_grad():
-            p.add_(S.randn(*p.shape, scale=0.2) if p.dim() else S.randn(1, scale=0.2)[0])
+            if name.endswith("natural_mat"):
+                A = S.randn(*p.shape, scale=0.3)
+                p.add_(-(A @ A.transpose(-1, -2)))  # stays negative definite (a valid natural parameter) at every witness
+            else:
+                p.add_(S.randn(*p.shape, scale=0.2) if p.dim() else S.randn(1, scale=0.2)[0])
         S.sym_tensor(p, prefix + name.replace(".", "_"))
     for name, b in module.named_buffers():
         if b is None or not b.is_floating_point() or b.numel() == 0 or not torch.isfinite(b).all():
